@@ -6,7 +6,7 @@
 
 import logging
 from collections import defaultdict
-from typing import Optional, cast
+from typing import Optional, Sequence, cast
 
 from clingo.ast import (
     AST,
@@ -189,6 +189,21 @@ class SumAggregator:
         return None
 
     @staticmethod
+    def _groups_in_tuple(trigger_lit: AST, trigger_anon_pred: AnnotatedPredicate, terms: Sequence[AST]) -> bool:
+        """True if every variable that selects the group of the at most one atom is part of the tuple:
+        the chain has one link per group, a tuple shared by several groups is counted only once"""
+        tuple_vars: list[AST] = []
+        for term in terms:
+            tuple_vars.extend(collect_ast(term, "Variable"))
+        for i, arg in enumerate(trigger_lit.atom.symbol.arguments):
+            if i in trigger_anon_pred.annotated_positions:
+                continue
+            for var in collect_ast(arg, "Variable"):
+                if var.name != "_" and var not in tuple_vars:
+                    return False
+        return True
+
+    @staticmethod
     def _element_passes(elem: AST, elements: list[AST]) -> bool:
         """True if element in sum aggregate is simple enough to be replaced inside chaining"""
         if elem.terms[0].ast_type != ASTType.Variable:  # only this variable as weight is allowed
@@ -224,6 +239,9 @@ class SumAggregator:
                     newelements.append(elem)
                     continue
                 trigger_lit, trigger_index, trigger_anon_pred = trigger
+                if not self._groups_in_tuple(trigger_lit, trigger_anon_pred, elem.terms[1:]):
+                    newelements.append(elem)
+                    continue
                 log.info(f"Replace {trigger_anon_pred.pred.name}/{trigger_anon_pred.pred.arity} inside an aggregate.")
 
                 old_condition = elem.condition
@@ -325,6 +343,8 @@ class SumAggregator:
         if trigger is None:
             return [minimize]
         trigger_lit, trigger_index, trigger_anon_pred = trigger
+        if not self._groups_in_tuple(trigger_lit, trigger_anon_pred, [minimize.priority] + list(minimize.terms)):
+            return [minimize]
         log.info(f"Replace {trigger_anon_pred.pred.name}/{trigger_anon_pred.pred.arity} inside an objective function.")
 
         old_condition = minimize.body
